@@ -152,12 +152,66 @@ def tool_space(ctx):
         for kind in ("hex", "hexsp", "junk", "name"):
             jobs.append(("sum-line", ll, kind))
 
+    # file contents: every truncation length of a small encrypted file, sizes around the I/O buffer, stdin/stdout modes, several files at once
+    for n in range(0, 140):
+        jobs.append(("crypt-trunc", n, None))
+    for n in (0, 1, 15, 16, 17, 8175, 8176, 8177, 8191, 8192, 8193, 16383, 16384, 16385, 24576):
+        jobs.append(("crypt-size", n, None))
+        jobs.append(("sum-size", n, None))
+
+    def run_in(args, cwd, what, data):
+        f = os.path.join(cwd, "stdin.tmp")
+        with open(f, "wb") as fh:
+            fh.write(data)
+        with open(f, "rb") as fh:
+            try:
+                p = subprocess.run(args, cwd=cwd, env=env, stdout=subprocess.PIPE, stderr=subprocess.PIPE, timeout=120, stdin=fh)
+            except OSError:
+                return b""
+        ctx.stat("evaluations")
+        err = p.stderr.decode("utf-8", "replace")
+        if "AddressSanitizer" in err or "runtime error" in err or p.returncode < 0:
+            ctx.fail("tool:%s:%s:stdin" % (os.path.basename(args[0]), "asan" if "AddressSanitizer" in err else "ubsan" if "runtime error" in err else "signal%d" % -p.returncode),
+                     "%s: %s | %s" % (what, " ".join(args[1:]), err[-300:].replace("\n", " | ")), dict(cmd=args, cwd=cwd, env={}))
+        return p.stdout
+
     def one(j):
         kind, a, b = j
         d = os.path.join(root, "w%d" % next(cnt))
         os.makedirs(d)
         try:
-            if kind == "crypt-name":
+            if kind == "crypt-trunc":
+                with open(os.path.join(d, "f.bin"), "wb") as f:
+                    f.write(bytes(range(44)))
+                subprocess.run([crypt, "-e", "-p", "pw", "-o", "full.enc", "f.bin"], cwd=d, env=env, stdout=subprocess.DEVNULL, stderr=subprocess.DEVNULL)
+                blob = open(os.path.join(d, "full.enc"), "rb").read()
+                with open(os.path.join(d, "t.ascon"), "wb") as f:
+                    f.write(blob[:a])
+                run([crypt, "-d", "-p", "pw", "-o", "t.out", "t.ascon"], d, "encrypted file truncated to %d of %d bytes" % (a, len(blob)))
+                run([crypt, "-p", "pw", "t.ascon"], d, "encrypted file truncated to %d bytes, direction detected" % a)
+                run_in([crypt, "-d", "-p", "pw", "-"], d, "stdin stream truncated to %d bytes" % a, blob[:a])
+            elif kind == "crypt-size":
+                data = bytes((i * 13 + 5) & 0xff for i in range(a))
+                for nm in ("a.bin", "b.bin"):
+                    with open(os.path.join(d, nm), "wb") as f:
+                        f.write(data)
+                run([crypt, "-p", "pw", "a.bin", "b.bin"], d, "two %d-byte files, default names" % a)
+                run([crypt, "-p", "pw", "a.bin.ascon", "b.bin.ascon"], d, "two encrypted %d-byte files, default names" % a)
+                enc = run_in([crypt, "-e", "-p", "pw", "-"], d, "%d bytes stdin->stdout" % a, data)
+                run_in([crypt, "-d", "-p", "pw", "-"], d, "%d bytes stdin->stdout (decrypt)" % len(enc), enc)
+                if len(enc) > 100:
+                    e2 = bytearray(enc)
+                    e2[len(e2) // 2] ^= 1
+                    run_in([crypt, "-d", "-p", "pw", "-o", "x.out", "-"], d, "tampered %d-byte stream" % len(enc), bytes(e2))
+            elif kind == "sum-size":
+                data = bytes((i * 13 + 5) & 0xff for i in range(a))
+                with open(os.path.join(d, "a.bin"), "wb") as f:
+                    f.write(data)
+                for flag in ("-h", "-a", "-x", "-y"):
+                    run([summ, flag, "a.bin"], d, "%d-byte file" % a)
+                    o = run_in([summ, flag], d, "%d bytes on stdin" % a, data)
+                    run_in([summ, flag, "-c"], d, "checksum list on stdin", o.replace(b"  -", b"  a.bin"))
+            elif kind == "crypt-name":
                 name, opts = a, b
                 data = b"hello world" * 3
                 with open(os.path.join(d, name), "wb") as f:
